@@ -14,6 +14,12 @@ var intervalsByType = map[string][]int64{
 	tYear:  {msHour, 2 * msHour, 4 * msHour, 6 * msHour, 12 * msHour, msDay, 5 * msHour},
 }
 
+// classes of the genuine defects that only show on days on which the clock is moved (known_findings.json)
+const (
+	classDstMonthSlotWraps      = "C13/dst/month/slot-wraps-modulo-24h-on-25h-day"
+	classDstMonthSlotRangeWraps = "C13/dst/month/slot-range-wraps-modulo-24h-on-25h-day"
+)
+
 func ivName(i int64) string { return timeutil.Interval(i).String() + fmt.Sprintf("(%dms)", i) }
 
 // lindbCalc returns lindb's calculator for an interval type through the public path Interval.Calculator().
@@ -106,6 +112,10 @@ func (cc *calcChecker) check(ts int64, u uint64) {
 		if !(fs <= ts && ts <= fe) {
 			r.Violation("C13/calc/"+typ+"/family-excludes-ts", fmt.Sprintf("%s family range [%d,%d] of %d(%s) does not contain it", typ, fs, fe, ts, cal.fmt(ts)), w("familyStart", fs, "familyEnd", fe))
 		}
+		if fs < b.SegStart || fe >= b.SegNext {
+			r.Violation("C13/calc/"+typ+"/family-crosses-segment", fmt.Sprintf("%s family range [%d(%s),%d(%s)] of %d is not inside its segment [%d,%d) (%s)", typ, fs, cal.fmt(fs), fe, cal.fmt(fe), ts, b.SegStart, b.SegNext, b.SegName),
+				w("familyStart", fs, "familyEnd", fe))
+		}
 		if ft != fs {
 			r.Violation("C13/calc/"+typ+"/family-time-mismatch", fmt.Sprintf("%s CalcFamilyTime(%d)=%d but CalcFamilyStartTime(seg,CalcFamily)=%d", typ, ts, ft, fs), w("familyTime", ft, "familyStart", fs))
 		}
@@ -134,7 +144,13 @@ func (cc *calcChecker) check(ts int64, u uint64) {
 			slot := calc.CalcSlot(ts, fs, iv)
 			st := fs + int64(slot)*iv
 			if !(st > ts-iv && st <= ts) || slot < 0 || slot > 65535 {
-				r.Violation("C13/calc/"+typ+"/slot-outside-window", fmt.Sprintf("%s interval %s: CalcSlot(%d, familyStart %d)=%d -> %d not in (t-interval, t]", typ, ivName(iv), ts, fs, slot, st),
+				class := "C13/calc/" + typ + "/slot-outside-window"
+				if typ == tMonth && fs == b.FamStart && b.FamEnd-b.FamStart+1 > msDay && ts-fs >= msDay && int64(slot) == ((ts-fs)%msDay)/iv {
+					// known defect (mechanism named by the class): month.CalcSlot reduces the offset modulo 24 h, the
+					// family (a local day) is 25 h long on the day the clock is moved back
+					class = classDstMonthSlotWraps
+				}
+				r.Violation(class, fmt.Sprintf("%s interval %s: CalcSlot(%d, familyStart %d)=%d -> %d not in (t-interval, t]", typ, ivName(iv), ts, fs, slot, st),
 					w("interval", iv, "slot", slot, "slotStart", st, "familyStart", fs))
 			}
 			if ct := timeutil.CalcTimestamp(fs, slot, timeutil.Interval(iv)); ct != st {
@@ -157,7 +173,12 @@ func (cc *calcChecker) check(ts int64, u uint64) {
 			}
 			wantLo, wantHi := (lo-b.FamStart)/iv, (hi-b.FamStart)/iv
 			if int64(sr.Start) != wantLo || int64(sr.End) != wantHi {
-				r.Violation("C13/calc/"+typ+"/slot-range", fmt.Sprintf("%s interval %s: CalcSlotRange(family %d, [%d,%d]) = [%d,%d], stored slots touched are [%d,%d]",
+				class := "C13/calc/" + typ + "/slot-range"
+				if typ == tMonth && fs == b.FamStart && fe == b.FamEnd && fe-fs+1 > msDay && hi-fs >= msDay && lo <= hi &&
+					int64(sr.Start) == ((lo-fs)%msDay)/iv && int64(sr.End) == ((hi-fs)%msDay)/iv {
+					class = classDstMonthSlotRangeWraps
+				}
+				r.Violation(class, fmt.Sprintf("%s interval %s: CalcSlotRange(family %d, [%d,%d]) = [%d,%d], stored slots touched are [%d,%d]",
 					typ, ivName(iv), fs, a, bb, sr.Start, sr.End, wantLo, wantHi), w("interval", iv, "range", []int64{a, bb}, "got", []uint16{sr.Start, sr.End}, "want", []int64{wantLo, wantHi}))
 			}
 		}
@@ -192,6 +213,11 @@ func (cc *calcChecker) check(ts int64, u uint64) {
 			cc.count("calc/"+typ+"/boundary_cases_"+k, 1)
 		}
 		cc.count("calc/"+typ+"/timestamps", 1)
+	}
+	if cal.hasDST() {
+		if sit := cal.dstSituation(ts); sit != "" {
+			cc.count("calc/dst/timestamps_"+sit, 1)
+		}
 	}
 	// calendar features seen (by local date)
 	t := cal.at(ts)
@@ -237,6 +263,11 @@ func (cc *calcChecker) walk() {
 			}
 			segs[seg] = struct{}{}
 			n++
+			if cal.hasDST() {
+				if sit := cal.dstSituation(t); sit == "23h-day" || sit == "25h-day" {
+					cc.count("calc/dst/"+typ+"/walk_families_on_"+sit, 1)
+				}
+			}
 			if fe+1 <= t { // never loop on a broken chain
 				fe = t + msHour - 1
 			}
@@ -277,8 +308,8 @@ func runCalc(e *childEnv) {
 	// seeded random milliseconds
 	rnd := e.rand("calc-random-ts")
 	total := e.pick(400_000, 96_000_000)
-	if e.tz == "America/New_York" {
-		total = e.pick(30_000, 8_000_000)
+	if e.light {
+		total = e.pick(40_000, 8_000_000)
 	}
 	n := total / e.shards
 	lo, hi := e.cal.windowStart(), e.cal.windowEnd()
